@@ -592,8 +592,113 @@ func lbCheckBad(r *vrt.Run, t string, it lbItem, obs lbObs) (fs []vrt.Finding) {
 	return fs
 }
 
+// lbDoQLongLivedOnce reuses ONE DoQ connection for n sequential queries.  For
+// each query a stream is opened, the query is written, and the send side is
+// closed in a separate step a few milliseconds later, so that the STREAM FIN
+// travels in its own frame.  It returns "" if every query was answered with
+// its own question and H's records, else a key suffix and a detail.
+func lbDoQLongLivedOnce(addr string, clientTLS *tls.Config, n int) (key, detail string) {
+	tc := clientTLS.Clone()
+	tc.NextProtos = []string{"doq"}
+	dctx, dcancel := context.WithTimeout(context.Background(), lbTimeout)
+	defer dcancel()
+	conn, err := quic.DialAddr(dctx, addr, tc, nil)
+	if err != nil {
+		return "long-lived-connection-query-unanswered", "dial: " + err.Error()
+	}
+	defer func() { _ = conn.CloseWithError(0, "") }()
+	for i := 0; i < n; i++ {
+		// RFC 9250 4.2.1: Message ID 0; the questions differ instead.
+		req := vdns.NewReq(0, fmt.Sprintf("Ok-%03d.Long-Lived.Example.", i), dns.TypeA, dns.ClassINET)
+		wire, _ := req.Pack()
+		ctx, cancel := context.WithTimeout(context.Background(), lbTimeout)
+		st, oerr := conn.OpenStreamSync(ctx)
+		cancel()
+		if oerr != nil {
+			return "long-lived-connection-query-unanswered", fmt.Sprintf("query %d of %d on one connection: no stream available within %s: %v", i+1, n, lbTimeout, oerr)
+		}
+		if _, err = st.Write(lbFrame(wire)); err != nil {
+			return "long-lived-connection-query-unanswered", fmt.Sprintf("query %d of %d: write: %v", i+1, n, err)
+		}
+		time.Sleep(5 * time.Millisecond)
+		_ = st.Close()
+		_ = st.SetReadDeadline(time.Now().Add(lbTimeout))
+		data, rerr := io.ReadAll(st)
+		if rerr != nil || len(data) < 2 {
+			return "long-lived-connection-query-unanswered", fmt.Sprintf("query %d of %d on one connection: no answer within %s (%d octets, %v)", i+1, n, lbTimeout, len(data), rerr)
+		}
+		m := &dns.Msg{}
+		if int(binary.BigEndian.Uint16(data)) != len(data)-2 || m.Unpack(data[2:]) != nil {
+			return "long-lived-connection-answer-differs", fmt.Sprintf("query %d of %d: undecodable answer %x", i+1, n, data[:min(len(data), 40)])
+		}
+		_, want := dnsserver.VerifC01Expect(req.Question[0])
+		if echo := dnsserver.VerifC01Echo("x", req, m, false); len(echo) > 0 || !dnsserver.VerifC01Same(dnsserver.VerifC01TupleOf(m), want, false) {
+			return "long-lived-connection-answer-differs", fmt.Sprintf("query %d of %d asked %q: got %s", i+1, n, req.Question[0].Name, vdns.Canon(m, true))
+		}
+	}
+
+	return "", ""
+}
+
+var lbLimitedDoQAddr string
+
+// lbLimitedDoQ starts a DoQ server with QUIC limits enabled and a small
+// per-peer stream limit.
+func lbLimitedDoQ(limit int) string {
+	if lbLimitedDoQAddr != "" {
+		return lbLimitedDoQAddr
+	}
+	conf := dnsservertest.CreateServerTLSConfig(lbTLSName)
+	conf.NextProtos = dnsserver.NextProtoDoQ
+	srv := dnsserver.NewServerQUIC(dnsserver.ConfigQUIC{
+		TLSConfig:         conf,
+		ConfigBase:        dnsserver.ConfigBase{Name: "c01-doq-limited", Addr: "127.0.0.1:0", Handler: dnsserver.VerifC01Handler},
+		QUICLimitsEnabled: true,
+		MaxStreamsPerPeer: limit,
+	})
+	if err := srv.Start(context.Background()); err != nil {
+		vrt.Fatalf("c01 loopback: starting the limited DoQ server: %v", err)
+	}
+	lbLimitedDoQAddr = srv.LocalUDPAddr().String()
+
+	return lbLimitedDoQAddr
+}
+
+// lbLongLived runs the long-lived-connection scenario up to three times; it
+// alarms only if all three attempts fail in the same way, so that machine
+// load cannot raise an alarm.
+func lbLongLived(r *vrt.Run, s *lbServers, what string) (fs []vrt.Finding) {
+	addr, n := s.doqAddr, 130
+	if what == "long-lived-limit-8" {
+		addr, n = lbLimitedDoQ(8), 40
+	}
+	var keys, details []string
+	for a := 0; a < lbAttempts; a++ {
+		key, detail := lbDoQLongLivedOnce(addr, s.clientTLS, n)
+		r.Trans(n)
+		if key == "" {
+			r.Class(fmt.Sprintf("loopback:doq %s -> all %d answered (attempt %d)", what, n, a+1))
+
+			return nil
+		}
+		keys, details = append(keys, key), append(details, detail)
+	}
+	for _, k := range keys {
+		if k != keys[0] {
+			r.Class("loopback:doq " + what + " -> three different failures (not judged)")
+
+			return nil
+		}
+	}
+
+	return vrt.F("loopback-doq/"+keys[0], "%s, %d attempts: %s", what, lbAttempts, details[len(details)-1])
+}
+
 func lbRun(t *testing.T, r *vrt.Run, c lbCase) (fs []vrt.Finding) {
 	s := lbStart(t)
+	if c.T == "doq" && (c.What == "long-lived-130" || c.What == "long-lived-limit-8") {
+		return lbLongLived(r, s, c.What)
+	}
 	var it lbItem
 	for _, x := range lbItems() {
 		if x.what == c.What {
@@ -753,6 +858,10 @@ func TestVerifC01Loopback(t *testing.T) {
 					emit(lbCase{T: tr, What: it.what})
 				}
 			}
+			// One DoQ connection reused for more queries than the stream
+			// limit (100 by default; 8 on a server with QUIC limits enabled).
+			emit(lbCase{T: "doq", What: "long-lived-130"})
+			emit(lbCase{T: "doq", What: "long-lived-limit-8"})
 		},
 		func(c lbCase) []vrt.Finding { return lbRun(t, r, c) })
 	r.Finish()
